@@ -382,9 +382,10 @@ def Aggregation.valid (a : Aggregation) : Bool := a.categories != some [] && !a.
 def Aggregation.WF (a : Aggregation) : Bool :=
   (a.measures.map Measure.out).Nodup && (a.measures.map Measure.out).all (fun n => !(a.categories.getD []).contains n)
 
-/-- what is assumed about the host's float results (NOT modelled): `round q` is the number `statistics.mean` returns for the
-exact mean `q` (`q` itself when it is an `int` result or exactly representable), `sqrt q` what `statistics.pstdev` returns
-for the exact population variance `q` (CPython ≥ 3.11: the correctly rounded square root) -/
+/-- what is assumed about the host's float results (NOT modelled): `round q` is the number `math.fsum` returns for the exact
+sum `q` and `statistics.mean` for the exact mean `q` (the correctly rounded double; `q` itself when it is exactly
+representable or an `int` result of `mean`), `sqrt q` what `statistics.pstdev` returns for the exact population variance `q`
+(CPython ≥ 3.11: the correctly rounded square root) -/
 structure HostFloat where
   round : Rat → Rat
   sqrt : Rat → Rat
@@ -436,7 +437,7 @@ def aggApply (F : HostFloat) (fn : AggFn) (vs : List PValue) : Res PValue :=
   | .count => .ok (.num (vs.length : Rat))                    -- len(measure_values)
   | .max => match vs with | [] => .raised | v :: rest => pyMaxGo v rest
   | .min => match vs with | [] => .raised | v :: rest => pyMinGo v rest
-  | .sum => match numsOf vs with | some qs => .ok (.num (ratSum qs)) | none => .raised
+  | .sum => match numsOf vs with | some qs => .ok (.num (F.round (ratSum qs))) | none => .raised    -- math.fsum(measure_values)
   | .stddev => match numsOf vs with | some qs => .ok (.num (F.sqrt (ratPVariance qs))) | none => .raised
   | .average => match numsOf vs with | some qs => .ok (.num (F.round (ratMean qs))) | none => .raised
 
